@@ -1,4 +1,226 @@
+/-
+  C06 — include-except removes exactly the excluded entries and rewrites only suffixes.
+
+  Model: `Crs.Parser` (include_except_builder.go: buildinclusionLineMap, removeExclusions,
+  stringFromInclusionLines, replaceSuffixes; parser.go: buildPairMap, splitArgs).
+  In the model the lines an `include-except` contributes are
+  `(dedupLast F).filter (· ∉ X)` followed by `replaceSuffixes`; the theorems say what that is.
+-/
 import Crs.Parser
+import CrsProofs.Lines
 namespace Crs.Props
-theorem C06_placeholder : True := trivial
+open Crs Crs.Parser
+
+/-- what `include-except` keeps of the lines `F` of the include file, given all lines `X` of the exclusion files -/
+def keptLines (F X : List Bytes) : List Bytes := (dedupLast F).filter (fun l => !X.contains l)
+
+theorem dedupLast_sublist (F : List Bytes) : (dedupLast F).Sublist F := by
+  induction F with
+  | nil => simp [dedupLast]
+  | cons l ls ih =>
+    simp only [dedupLast]
+    split
+    · exact List.Sublist.cons _ ih
+    · exact List.Sublist.cons_cons _ ih
+
+theorem mem_dedupLast (F : List Bytes) (l : Bytes) : l ∈ dedupLast F ↔ l ∈ F := by
+  induction F with
+  | nil => simp [dedupLast]
+  | cons x xs ih =>
+    simp only [dedupLast]
+    split
+    · rename_i hc
+      have hx : x ∈ xs := by simpa using hc
+      constructor
+      · intro h; exact List.mem_cons_of_mem _ (ih.mp h)
+      · intro h
+        simp only [List.mem_cons] at h
+        rcases h with rfl | h
+        · exact ih.mpr hx
+        · exact ih.mpr h
+    · simp only [List.mem_cons, ih]
+
+theorem dedupLast_nodup (F : List Bytes) : (dedupLast F).Nodup := by
+  induction F with
+  | nil => simp [dedupLast]
+  | cons x xs ih =>
+    simp only [dedupLast]
+    split
+    · exact ih
+    · rename_i hc
+      have hx : x ∉ xs := by simpa using hc
+      exact List.nodup_cons.mpr ⟨fun h => hx ((mem_dedupLast xs x).mp h), ih⟩
+
+/-- **C06 (exactly the non-excluded entries).** An entry is contributed iff it occurs in the include file and in
+    no exclusion file: nothing excluded survives, nothing else is dropped. -/
+theorem C06_kept_iff (F X : List Bytes) (l : Bytes) : l ∈ keptLines F X ↔ l ∈ F ∧ l ∉ X := by
+  simp [keptLines, mem_dedupLast]
+
+/-- **C06 (order).** The surviving entries keep the relative order of the include file (they form a
+    subsequence of its lines), each surviving entry once. -/
+theorem C06_kept_order (F X : List Bytes) : (keptLines F X).Sublist F ∧ (keptLines F X).Nodup :=
+  ⟨(List.filter_sublist).trans (dedupLast_sublist F), (dedupLast_nodup F).filter _⟩
+
+/-- nothing is excluded when the exclusion files are empty or disjoint from the include file -/
+theorem C06_kept_disjoint (F X : List Bytes) (h : ∀ l ∈ F, l ∉ X) : keptLines F X = dedupLast F := by
+  unfold keptLines
+  apply List.filter_eq_self.mpr
+  intro l hl
+  have := h l ((mem_dedupLast F l).mp hl)
+  simpa using this
+
+/-! ### suffix replacement -/
+
+theorem cutSuffix?_some_iff (k e stem : Bytes) : cutSuffix? k e = some stem ↔ e = stem ++ k := by
+  unfold cutSuffix?
+  constructor
+  · intro h
+    simp only [Option.map_eq_some_iff] at h
+    obtain ⟨r, hr, hrs⟩ := h
+    have := (stripPrefix?_some_iff _ _ _).mp hr
+    have h2 := congrArg List.reverse this
+    simp only [List.reverse_reverse, List.reverse_append] at h2
+    rw [h2, hrs]
+  · intro h
+    subst h
+    have : stripPrefix? k.reverse (stem ++ k).reverse = some stem.reverse := by
+      rw [List.reverse_append]; exact stripPrefix?_append _ _
+    rw [this]; simp
+
+theorem cutSuffix?_none_iff (k e : Bytes) : cutSuffix? k e = none ↔ ¬ k <:+ e := by
+  constructor
+  · intro h ⟨t, ht⟩
+    have := (cutSuffix?_some_iff k e t).mpr ht.symm
+    rw [h] at this; simp at this
+  · intro h
+    cases hc : cutSuffix? k e with
+    | none => rfl
+    | some stem => exact absurd ⟨stem, ((cutSuffix?_some_iff k e stem).mp hc).symm⟩ h
+
+def quoteQuote : Bytes := b!"\"\""
+
+/-- **C06 (first matching pair).** With the pairs in the order written, an entry that ends in the key of a pair —
+    and in no key of an earlier pair — has that ending replaced by the pair's value, or deleted when the value
+    is `""`; later pairs are not applied to the result. -/
+theorem C06_rewrite_first_match (before : List (Bytes × Bytes)) (k r : Bytes) (after : List (Bytes × Bytes)) (stem : Bytes)
+    (hno : ∀ p ∈ before, ¬ p.1 <:+ (stem ++ k)) :
+    rewriteEntry (before ++ (k, r) :: after) (stem ++ k) = if r == quoteQuote then stem else stem ++ r := by
+  induction before with
+  | nil =>
+    simp only [List.nil_append, rewriteEntry]
+    rw [(cutSuffix?_some_iff k (stem ++ k) stem).mpr rfl]
+    rfl
+  | cons p ps ih =>
+    obtain ⟨pk, pr⟩ := p
+    simp only [List.cons_append, rewriteEntry]
+    rw [(cutSuffix?_none_iff pk (stem ++ k)).mpr (hno (pk, pr) (by simp))]
+    exact ih (fun q hq => hno q (by simp [hq]))
+
+/-- an entry that ends in no key is left alone -/
+theorem C06_rewrite_unchanged (pairs : List (Bytes × Bytes)) (e : Bytes) (hno : ∀ p ∈ pairs, ¬ p.1 <:+ e) :
+    rewriteEntry pairs e = e := by
+  induction pairs with
+  | nil => rfl
+  | cons p ps ih =>
+    obtain ⟨pk, pr⟩ := p
+    simp only [rewriteEntry]
+    rw [(cutSuffix?_none_iff pk e).mpr (hno (pk, pr) (by simp))]
+    exact ih (fun q hq => hno q (by simp [hq]))
+
+/-- the result of a rewrite always starts with the part of the entry before the matched ending: only suffixes change -/
+theorem C06_rewrite_keeps_stem (pairs : List (Bytes × Bytes)) (e : Bytes) :
+    rewriteEntry pairs e = e ∨ ∃ stem k r, (k, r) ∈ pairs ∧ e = stem ++ k ∧ (rewriteEntry pairs e = stem ∨ rewriteEntry pairs e = stem ++ r) := by
+  induction pairs with
+  | nil => left; rfl
+  | cons p ps ih =>
+    obtain ⟨pk, pr⟩ := p
+    simp only [rewriteEntry]
+    cases hc : cutSuffix? pk e with
+    | some stem =>
+      right
+      refine ⟨stem, pk, pr, by simp, (cutSuffix?_some_iff pk e stem).mp hc, ?_⟩
+      simp only
+      split
+      · left; rfl
+      · right; rfl
+    | none =>
+      simp only
+      rcases ih with h | ⟨stem, k, r, hm, he, hr⟩
+      · left; exact h
+      · right; exact ⟨stem, k, r, by simp [hm], he, hr⟩
+
+/-- **C06 (comments, directives and blank lines are never touched; one output line per input line).** -/
+theorem C06_replaceSuffixes_lines (content : Bytes) (pairs : List (Bytes × Bytes)) (hp : pairs ≠ []) :
+    replaceSuffixes content pairs =
+      unlines ((scanLines content).map fun l => if skipLine l then l else rewriteEntry pairs l) := by
+  unfold replaceSuffixes
+  have : pairs.isEmpty = false := by cases pairs with | nil => exact absurd rfl hp | cons _ _ => rfl
+  simp [this]
+
+theorem C06_skip_directives (l : Bytes) (h : Pat.marker <+: l) : skipLine l = true := by
+  unfold skipLine hasPrefix
+  simp [List.isPrefixOf_iff_prefix.mpr h]
+
+/-- without a replacement list the text is passed on untouched -/
+theorem C06_no_pairs (content : Bytes) : replaceSuffixes content [] = content := by
+  simp [replaceSuffixes]
+
+/-! ### the replacement list -/
+
+private theorem pairUp_some_aux (n : Nat) : ∀ l : List Bytes, l.length ≤ n → (buildPairs.pairUp l).isSome = (l.length % 2 == 0) := by
+  induction n with
+  | zero =>
+    intro l hl
+    have : l = [] := List.length_eq_zero_iff.mp (by omega)
+    subst this; simp [buildPairs.pairUp]
+  | succ n ih =>
+    intro l hl
+    match l, hl with
+    | [], _ => simp [buildPairs.pairUp]
+    | [x], _ => simp [buildPairs.pairUp]
+    | x :: y :: r, hl =>
+      simp only [buildPairs.pairUp, Option.isSome_map, List.length_cons]
+      rw [ih r (by simp at hl; omega)]
+      have e : (r.length + 1 + 1) % 2 = r.length % 2 := by omega
+      rw [e]
+
+private theorem pairUp_some_iff (l : List Bytes) : (buildPairs.pairUp l).isSome = (l.length % 2 == 0) :=
+  pairUp_some_aux l.length l (Nat.le_refl _)
+
+/-- **C06 (odd list).** A replacement list with an odd number of arguments is rejected (`buildPairMap` panics);
+    a blank one means "no replacements". -/
+theorem C06_pairs_odd_rejected (input : Bytes) :
+    buildPairs input = none ↔ (isBlank input = false ∧ (Pat.splitArgs input).length % 2 = 1) := by
+  unfold buildPairs
+  by_cases hb : isBlank input = true
+  · simp [hb]
+  · have hb' : isBlank input = false := by simpa using hb
+    simp only [hb', Bool.false_eq_true, if_false, true_and]
+    have := pairUp_some_iff (Pat.splitArgs input)
+    cases hp : buildPairs.pairUp (Pat.splitArgs input) with
+    | none =>
+      rw [hp] at this
+      simp only [Option.isSome_none] at this
+      constructor
+      · intro _
+        have := this.symm
+        simp only [beq_eq_false_iff_ne, ne_eq] at this
+        omega
+      · intro _; rfl
+    | some ps =>
+      rw [hp] at this
+      simp only [Option.isSome_some] at this
+      constructor
+      · intro h; simp at h
+      · intro h
+        have := this.symm
+        simp only [beq_iff_eq] at this
+        omega
+
+/-- non-vacuity: the chained pairs `@ ~ ~ x` of the repaired defect D02 rewrite `foo@` to `foo~` (first match only) -/
+example : (buildPairs "@ ~ ~ x".toList).map (fun ps => rewriteEntry ps "foo@".toList) = some "foo~".toList ∧
+    (buildPairs "@ \"\"".toList).map (fun ps => rewriteEntry ps "foo@".toList) = some "foo".toList ∧
+    buildPairs "@ ~ x".toList = none := by
+  decide
+
 end Crs.Props
